@@ -89,6 +89,55 @@ func main() {
 	fmt.Printf("instrument: %d files, %d edits\n", nfiles, nedits)
 }
 
+
+// mapRanges lists every range statement over a map with an ordered key type in
+// the repository (file, enclosing function, ranged expression), produced once
+// with go/types. The rewriter turns them into iteration in key order, so that
+// Go's randomised map iteration is not a hidden source of nondeterminism in a
+// simulated run. A range statement that is not listed is left alone.
+var mapRanges = map[[3]string]bool{
+	{"base/vote.go", "FindVoteResult", "count"}: true,
+	{"isaac/block.go", "IsValid", "f.items"}: true,
+	{"isaac/block/map_json.go", "DecodeJSON", "u.Items"}: true,
+	{"isaac/block_json.go", "DecodeJSON", "u.Items"}: true,
+	{"isaac/database/pool.go", "OperationHashes", "facts"}: true,
+	{"isaac/readers.go", "isInLocalFS", "m"}: true,
+	{"isaac/readers.go", "writeItemFiles", "oldbfiles.Items()"}: true,
+	{"isaac/states/ballotbox.go", "copyVoted", "vr.ballots"}: true,
+	{"isaac/states/ballotbox.go", "copyVoted", "vr.voted"}: true,
+	{"isaac/states/ballotbox.go", "countFromBallots", "vr.ballots"}: true,
+	{"isaac/states/ballotbox.go", "sfs", "voted"}: true,
+	{"isaac/states/ballotbox.go", "sortBallotSignFactsByExpels", "mw"}: true,
+	{"isaac/states/ballotbox.go", "sortBallotSignFactsByExpels", "signfacts"}: true,
+	{"isaac/states/ballotbox.go", "voteproofFromBallot", "vr.vps"}: true,
+	{"isaac/states/states.go", "SetLogging", "st.newHandlers"}: true,
+	{"isaac/syncer.go", "Actives", "p.nonfixed"}: true,
+	{"isaac/syncer.go", "IsInNonFixed", "p.nonfixed"}: true,
+	{"isaac/syncer.go", "NodeConnInfo", "p.nonfixed"}: true,
+	{"isaac/syncer.go", "NodeExists", "p.nonfixed"}: true,
+	{"isaac/syncer.go", "RemoveNonFixedNode", "p.nonfixed"}: true,
+	{"isaac/syncer.go", "Traverse", "p.nonfixed"}: true,
+	{"isaac/syncer.go", "pick", "p.nonfixed"}: true,
+	{"launch/acl.go", "compareACLUserValues", "a"}: true,
+	{"launch/cmd/network_block_item_file.go", "downloadBlockItems", "m"}: true,
+	{"launch/local_params.go", "IsValid", "p.handlerTimeouts"}: true,
+	{"launch/local_params.go", "IsValid", "r.m"}: true,
+	{"launch/local_params.go", "IsValid", "rs.rules"}: true,
+	{"launch/local_params.go", "defaultNetworkParams", "defaultHandlerTimeouts"}: true,
+	{"launch/local_params_marshal.go", "marshaler", "p.handlerTimeouts"}: true,
+	{"launch/local_params_marshal.go", "unmarshal", "u.HandlerTimeout"}: true,
+	{"launch/ratelimit_json.go", "MarshalJSON", "m.m"}: true,
+	{"launch/ratelimit_json.go", "UnmarshalJSON", "u[i]"}: true,
+	{"util/context.go", "ContextWithValues", "v"}: true,
+	{"util/hint/set.go", "Traverse", "st.set"}: true,
+	{"util/hint/set.go", "Traverse", "st.set[i]"}: true,
+	{"util/lock.go", "Map", "l.m"}: true,
+	{"util/lock.go", "Map", "sm"}: true,
+	{"util/lock.go", "Traverse", "l.m"}: true,
+	{"util/ps/ps.go", "SetLogging", "ps.m"}: true,
+	{"util/ps/ps.go", "names", "ps.m"}: true,
+}
+
 func fatal(s string) {
 	fmt.Fprintln(os.Stderr, "instrument:", s)
 	os.Exit(2)
@@ -177,8 +226,137 @@ func rewrite(path, rel string) (int, error) {
 		}
 	}
 
+	curFunc := ""
+
 	ast.Inspect(f, func(n ast.Node) bool {
 		switch s := n.(type) {
+		case *ast.FuncDecl:
+			curFunc = s.Name.Name
+		case *ast.RangeStmt:
+			if s.Key == nil || s.Tok != token.DEFINE {
+				break
+			}
+
+			xs := string(src[off(s.X.Pos()):off(s.X.End())])
+			if !mapRanges[[3]string{rel, curFunc, xs}] {
+				break
+			}
+
+			it := "simrtit" + strconv.Itoa(off(s.Pos()))
+			hdr := "for " + it + " := simrt.IterMap(" + xs + "); " + it + ".Next(); {"
+
+			if id, ok := s.Key.(*ast.Ident); ok && id.Name != "_" {
+				hdr += " " + id.Name + " := " + it + ".K;"
+			}
+
+			if s.Value != nil {
+				if id, ok := s.Value.(*ast.Ident); ok && id.Name != "_" {
+					hdr += " " + id.Name + " := " + it + ".V;"
+				}
+			}
+
+			old := src[off(s.Pos()) : off(s.Body.Lbrace)+1]
+			hdr += strings.Repeat("\n", strings.Count(string(old), "\n"))
+
+			add(off(s.Pos()), len(old), hdr)
+
+			usesSimrt = true
+		case *ast.SelectStmt:
+			// which ready case a select takes is decided by the Go runtime: replace it by a seeded choice
+			// (receive-only selects, which is every select of the repository)
+			var comms []*ast.CommClause
+
+			okSel := len(s.Body.List) > 0
+			hasDefault := false
+
+			for _, c := range s.Body.List {
+				cc := c.(*ast.CommClause) //nolint:forcetypeassert //...
+				comms = append(comms, cc)
+
+				switch cm := cc.Comm.(type) {
+				case nil:
+					hasDefault = true
+				case *ast.ExprStmt:
+					if u, ok := cm.X.(*ast.UnaryExpr); !ok || u.Op != token.ARROW {
+						okSel = false
+					}
+				case *ast.AssignStmt:
+					if len(cm.Rhs) != 1 || len(cm.Lhs) > 2 {
+						okSel = false
+
+						break
+					}
+
+					if u, ok := cm.Rhs[0].(*ast.UnaryExpr); !ok || u.Op != token.ARROW {
+						okSel = false
+					}
+				default:
+					okSel = false
+				}
+			}
+
+			if !okSel {
+				break
+			}
+
+			pre := "simrtc" + strconv.Itoa(off(s.Pos())) + "x"
+
+			var names, exprs []string
+
+			for _, cc := range comms {
+				if cc.Comm == nil {
+					continue
+				}
+
+				var u *ast.UnaryExpr
+
+				var assign string
+
+				i := len(names)
+				name := pre + strconv.Itoa(i)
+
+				switch cm := cc.Comm.(type) {
+				case *ast.ExprStmt:
+					u = cm.X.(*ast.UnaryExpr) //nolint:forcetypeassert //...
+				case *ast.AssignStmt:
+					u = cm.Rhs[0].(*ast.UnaryExpr) //nolint:forcetypeassert //...
+					lhs := string(src[off(cm.Lhs[0].Pos()):off(cm.Lhs[len(cm.Lhs)-1].End())])
+
+					if len(cm.Lhs) == 1 {
+						assign = " " + lhs + " " + cm.Tok.String() + " " + name + ".V();"
+					} else {
+						assign = " " + lhs + " " + cm.Tok.String() + " " + name + ".VOK();"
+					}
+				}
+
+				names = append(names, name)
+				exprs = append(exprs, "simrt.R("+string(src[off(u.X.Pos()):off(u.X.End())])+")")
+
+				old := src[off(cc.Pos()) : off(cc.Colon)+1]
+				add(off(cc.Pos()), len(old), "case "+strconv.Itoa(i)+":"+assign+strings.Repeat("\n", strings.Count(string(old), "\n")))
+			}
+
+			hdr := "switch "
+			if len(names) > 0 {
+				hdr += strings.Join(names, ", ") + " := " + strings.Join(exprs, ", ") + "; "
+			}
+
+			hdr += "simrt.Select(" + strconv.FormatBool(hasDefault)
+			for _, n := range names {
+				hdr += ", " + n
+			}
+
+			hdr += ") {"
+
+			old := src[off(s.Pos()) : off(s.Body.Lbrace)+1]
+			add(off(s.Pos()), len(old), hdr+strings.Repeat("\n", strings.Count(string(old), "\n")))
+
+			if !hasDefault {
+				// a select whose clauses all return is a terminating statement; so is a switch with a default
+				add(off(s.Body.Rbrace), 0, "default: panic(\"simrt.Select: unreachable\"); ")
+			}
+
+			usesSimrt = true
 		case *ast.BlockStmt:
 			doList(s.List)
 		case *ast.CaseClause:
@@ -192,12 +370,17 @@ func rewrite(path, rel string) (int, error) {
 				usesSimrt = true
 			}
 		case *ast.GoStmt:
+			// task ids follow the spawn order, which the schedule decides, and not the order in which the runtime starts goroutines
 			if fl, ok := s.Call.Fun.(*ast.FuncLit); ok {
+				v := "simrtg" + strconv.Itoa(off(s.Pos()))
+				add(off(s.Pos()), 0, v+" := simrt.Reserve(); ")
 				// a panic in a goroutine of the system under test is reported to the kernel instead of killing the worker
-				add(off(fl.Body.Lbrace)+1, 0, " defer simrt.Recover("+strconv.Quote(rel+":"+strconv.Itoa(line(s.Pos())))+"); "+site("go", s.Pos())+";")
-
-				usesSimrt = true
+				add(off(fl.Body.Lbrace)+1, 0, " simrt.Adopt("+v+"); defer simrt.Recover("+strconv.Quote(rel+":"+strconv.Itoa(line(s.Pos())))+"); "+site("go", s.Pos())+";")
+			} else {
+				add(off(s.Pos()), 0, "simrt.Spawn("+strconv.Quote(rel+":"+strconv.Itoa(line(s.Pos())))+"); ")
 			}
+
+			usesSimrt = true
 		}
 
 		return true
@@ -261,6 +444,14 @@ func rewrite(path, rel string) (int, error) {
 
 			return edits[i].seq > edits[j].seq
 		})
+	}
+
+	for i := range edits {
+		for j := range edits {
+			if i != j && edits[j].del > 0 && edits[i].off > edits[j].off && edits[i].off < edits[j].off+edits[j].del {
+				return 0, fmt.Errorf("edit at offset %d lies inside a replaced region at %d+%d", edits[i].off, edits[j].off, edits[j].del)
+			}
+		}
 	}
 
 	for _, e := range edits {
